@@ -31,6 +31,12 @@ type Ctx struct {
 }
 
 func (c *Ctx) typeVal(t *geval.SymType) vc.Val {
+	// the underlying type of an unnamed type is the type itself
+	if t.IsView() {
+		if f := c.In.fact(t); f != nil && f.Named == geval.No {
+			t = t.R()
+		}
+	}
 	tt := TypeTerm(t)
 	c.E.Decls.Const(tt.S, smt.V)
 	c.types[tt.S] = t
@@ -284,7 +290,7 @@ func (in *Instance) Verify() (*vc.Engine, error) {
 	for _, n := range hn {
 		h := in.Helpers[n]
 		key := pkgName + "." + n
-		fam, bind, err := in.B.Family(h.Plugin, len(h.Typs))
+		fam, bind, err := in.B.Family(h.Plugin, len(h.Typs), in.kind0(h.Typs), sameTypes(h.Typs))
 		if err != nil {
 			return nil, err
 		}
@@ -390,7 +396,7 @@ func (in *Instance) Verify() (*vc.Engine, error) {
 		if cur := e.CurrentKey(); cur != "" {
 			for n, h := range in.Helpers {
 				if pkgName+"."+n == cur {
-					if fam, _, err := in.B.Family(h.Plugin, len(h.Typs)); err == nil {
+					if fam, _, err := in.B.Family(h.Plugin, len(h.Typs), in.kind0(h.Typs), sameTypes(h.Typs)); err == nil {
 						gen = fam
 					}
 				}
@@ -421,6 +427,79 @@ func (in *Instance) Verify() (*vc.Engine, error) {
 		v := e.Fresh("closure", smt.V)
 		st.Assume(smt.Neq(v, vc.NilV))
 		return vc.Val{T: v, Ty: in.Info.TypeOf(x)}, true, nil
+	}
+	// O-clauses may apply a pure helper by its plugin's name, e.g. contains(list, x):
+	// the application is the helper's uninterpreted function, and its contract is
+	// available for all arguments (the helper satisfies it by its own proof).
+	axiomDone := map[string]bool{}
+	e.SpecFallback = func(e *vc.Engine, env *vc.SpecEnv, x *spec.Call) (vc.Val, bool, error) {
+		var found []string
+		for n, h := range in.Helpers {
+			if h.Plugin == x.Fun {
+				found = append(found, n)
+			}
+		}
+		if len(found) != 1 {
+			return vc.Val{}, false, nil
+		}
+		key := pkgName + "." + found[0]
+		hc := cs.Funcs[key]
+		fn := e.Funcs[key]
+		if hc == nil || fn == nil || len(hc.Attrs["pure"]) == 0 {
+			return vc.Val{}, false, nil
+		}
+		sig := fn.Obj.Type().(*types.Signature)
+		if sig.Results().Len() != 1 || sig.Params().Len() != len(x.Args) {
+			return vc.Val{}, false, fmt.Errorf("spec: helper %s applied to %d arguments", x.Fun, len(x.Args))
+		}
+		var ts []smt.T
+		var sorts []smt.Sort
+		for _, a := range x.Args {
+			v, err := e.EvalSpec(env, a)
+			if err != nil {
+				return vc.Val{}, true, err
+			}
+			ts = append(ts, v.T)
+			sorts = append(sorts, v.T.Sort)
+		}
+		rt := sig.Results().At(0).Type()
+		fname := smt.Ident("fn!" + key)
+		e.Decls.Fun(fname, sorts, vc.SortOf(rt))
+		if !axiomDone[key] {
+			axiomDone[key] = true
+			// forall params :: ensures[r := f(params)]
+			bound := map[string]vc.Val{}
+			var bs []smt.Bound
+			var ps []smt.T
+			for i := 0; i < sig.Params().Len(); i++ {
+				p := sig.Params().At(i)
+				nm := fmt.Sprintf("hp%d?%s", i, smt.Ident(found[0]))
+				bs = append(bs, smt.Bound{Name: nm, Sort: vc.SortOf(p.Type())})
+				t := smt.T{S: nm, Sort: vc.SortOf(p.Type())}
+				ps = append(ps, t)
+				if i < len(hc.Params) {
+					bound[hc.Params[i]] = vc.Val{T: t, Ty: p.Type()}
+				}
+			}
+			app := smt.App(vc.SortOf(rt), fname, ps...)
+			if len(hc.Results) == 1 {
+				bound[hc.Results[0]] = vc.Val{T: app, Ty: rt}
+			}
+			for k, v := range e.ExtraBound[key] {
+				if _, shadow := bound[k]; !shadow {
+					bound[k] = v
+				}
+			}
+			cenv := &vc.SpecEnv{E: e, St: env.St, Old: env.St, Bound: bound, Callee: true, Pkg: pkgName}
+			for _, en := range hc.Ensures {
+				v, err := e.EvalSpec(cenv, en.Expr)
+				if err != nil {
+					return vc.Val{}, true, err
+				}
+				e.Axioms = append(e.Axioms, smt.Forall(bs, v.T, app))
+			}
+		}
+		return vc.Val{T: smt.App(vc.SortOf(rt), fname, ts...), Ty: rt}, true, nil
 	}
 	if len(targets) == 0 {
 		return nil, fmt.Errorf("the path emits no function that a contract describes")
